@@ -138,6 +138,65 @@ def check_fmt(ctx):
 
 
 # ---------------------------------------------------------------------------------------------------
+# util.encode_ascii_6 directly (anchor "armoring and fill-bit computation"): every bit length, every remainder mod 6
+# ---------------------------------------------------------------------------------------------------
+def check_armor(ctx):
+    from bitarray import bitarray
+    from pyais.util import encode_ascii_6, decode_into_bit_array
+    rep, rng = ctx.rep, ctx.rng
+    cases = ['']
+    for n in range(1, (11 if ctx.quick else 15)):
+        cases.extend(format(v, f'0{n}b') for v in range(1 << n))            # all bit strings of up to 10 (14) bits
+    for n in range(11, 400):
+        cases.append(cc.random_bits(rng, n))
+    for n in (1008, 1063, 1064, 3239, 3240):
+        cases.append(cc.random_bits(rng, n))
+    lines = []
+    for b in cases:
+        lines.append(f'armor {b or "-"}')
+        lines.append(f'armorspec {b or "-"}')
+    replies = ctx.model.ask_many(lines)
+    for i, b in enumerate(cases):
+        rep.case(('armor', b), kind='encode_ascii_6')
+        rep.count(f'armor/bits-mod-6:{len(b) % 6}')
+        try:
+            p, fill = encode_ascii_6(bitarray(b))
+            impl = f'Ok {hx(p)} {fill}'
+        except Exception as e:      # noqa: BLE001
+            p = fill = None
+            impl = f'Raise {type(e).__name__}'
+        if replies[2 * i] != impl:
+            rep.disagree('H-codec/encode_ascii_6', {'bits': b}, replies[2 * i], impl)
+        replay = {'entry': 'encode_ascii_6', 'bits': b, 'talker': '', 'channel': ''}
+        if p is None:
+            rep.violation({'entry': 'encode_ascii_6', 'component': 'exception', 'kind': f'exception:{impl[6:]}'},
+                          f'encode_ascii_6(<{len(b)} bits>) raised {impl[6:]}', replay)
+            continue
+        for text in armor_oracle(b, p, fill, replies[2 * i + 1], decode_into_bit_array):
+            rep.violation({'entry': 'encode_ascii_6', 'component': text[0], 'kind': 'wrong-value'},
+                          f'encode_ascii_6(<{len(b)} bits> {b[:40]}): {text[1]}', replay)
+    rep.exhaustive.append(f'encode_ascii_6 on all bit strings of 0..{10 if ctx.quick else 14} bits')
+
+
+def armor_oracle(b, p, fill, spec_reply, decode_into_bit_array):
+    """fill = padding to a six-bit boundary; text = the specification's armoring; de-armoring gives the bits back."""
+    bad = []
+    p_spec, fill_spec = spec_reply.split(' ')
+    if fill != int(fill_spec):
+        bad.append(('fill-padding', f'{fill} fill bits returned, the padding to a six-bit boundary is {fill_spec}'))
+    if p != unhx(p_spec):
+        bad.append(('armor', f'armored text {p!r} differs from the specification {unhx(p_spec)!r}'))
+    if p:
+        try:
+            back = decode_into_bit_array(p.encode(), fill).to01()
+        except Exception as e:      # noqa: BLE001
+            back = f'{type(e).__name__}: {e}'
+        if back != b:
+            bad.append(('decoder-acceptance', f'de-armoring {p!r} with fill {fill} gives {back[:60]!r}, not the encoded bits'))
+    return bad
+
+
+# ---------------------------------------------------------------------------------------------------
 # ais_to_nmea_0183 directly
 # ---------------------------------------------------------------------------------------------------
 def random_armored(rng, n):
@@ -168,9 +227,14 @@ def direct_cases(ctx):
     for n in BOUNDARY:
         for t, c, f in combos:
             cases.append(('boundary', random_armored(rng, n), t, c, f, True))
-    for _ in range(ctx.budget(150, 3000)):
+    for _ in range(ctx.budget(150, 600)):
         t, c, f = rng.choice(combos)
         cases.append(('len<=540', random_armored(rng, rng.randrange(201, 541)), t, c, f, True))
+    if not ctx.quick:
+        # thorough: every length up to 540 with every talker, channel and fill
+        for n in range(201, 541):
+            for t, c, f in combos:
+                cases.append(('len<=540', random_armored(rng, n), t, c, f, True))
     # the two extreme characters of the alphabet and its inner edges, at both ends of every fragment
     for ch in '0W`w':
         for n in (1, 60, 61, 120, 178):
@@ -503,7 +567,7 @@ def run_messages(ctx, cases, want_samples=True):
 def self_check(ctx):
     d = ctx.rep.dist
     # facts about the generated INPUTS only (never about what the implementation answered)
-    need = ['len<=200', 'boundary', 'len<=540', 'checksum<0x10', 'expect/sentence-checksum<0x10', 'talker-arg', 'channel-arg',
+    need = [f'armor/bits-mod-6:{k}' for k in range(6)] + ['len<=200', 'boundary', 'len<=540', 'checksum<0x10', 'expect/sentence-checksum<0x10', 'talker-arg', 'channel-arg',
             'payload-not-armored', 'fill-out-of-range'] + [f'expect/fragments:{k}' for k in range(1, 10)] \
         + [f'encode_dict/{k}/key:{v}' for k in ('decoded', 'synthetic', 'synthetic-full-width')
            for v in ('type', 'msg_type', 'both-equal')] \
@@ -522,9 +586,11 @@ def run(ctx):
         ctx.rep.notes.append('model driver unavailable: oracle needs the extracted specification; nothing checked')
         return
     check_fmt(ctx)
+    check_armor(ctx)
     run_direct(ctx, direct_cases(ctx))
     run_messages(ctx, message_cases(ctx))
-    ctx.rep.exhaustive.append('every armored payload length 0..200 x {AIVDM, AIVDO} x {A, B} x fill 0..5 (content PRNG-drawn)')
+    ctx.rep.exhaustive.append(f'every armored payload length 0..{200 if ctx.quick else 540} x {{AIVDM, AIVDO}} x {{A, B}} x fill 0..5 '
+                              '(content PRNG-drawn)')
     self_check(ctx)
 
 
@@ -547,6 +613,15 @@ def replay(ctx, data):
     m = ctx.model or vlib.FastModel()
     rep = vlib.Report('C09', 'quick', 0)
     entry, talker, channel = data['entry'], data['talker'], data['channel']
+    if entry == 'encode_ascii_6':
+        from bitarray import bitarray
+        from pyais.util import encode_ascii_6, decode_into_bit_array
+        b = data['bits']
+        try:
+            p, fill = encode_ascii_6(bitarray(b))
+        except Exception as e:      # noqa: BLE001
+            return f'raised {type(e).__name__}'
+        return '; '.join(x[1] for x in armor_oracle(b, p, fill, m.ask(f'armorspec {b or "-"}'), decode_into_bit_array)) or None
     if entry == 'ais_to_nmea_0183':
         p, f = data['payload'], data['fill']
         im = impl_call(pyais.ais_to_nmea_0183, p, talker, channel, f)
